@@ -179,3 +179,68 @@ func joinArrow(xs []string) string {
 	}
 	return s
 }
+
+// C01-NILTYPE: a reflect.Type read from a struct field and handed to one of the reflect
+// constructors (SliceOf, PtrTo/PointerTo, New, MakeSlice, Zero, MapOf, ...) without a nil test.
+// These functions dereference their argument; RegisteredType.TypeCache is set only when the
+// type's factory returns a non-nil sample, so for a type without one the field stays nil.
+// (def h [(hash a: 1)]) (def h [(hash a: 2)]) asks for the slice type of such an element
+// type when the variable is re-bound, outside the recover barrier.
+func (c *Ctx) checkNilReflectTypes(br *BR) {
+	n := 0
+	for _, f := range c.zygoFuncs() {
+		if !br.unprotected(f) {
+			continue
+		}
+		eachInstr(f, func(b *ssa.BasicBlock, i int, in ssa.Instruction) {
+			call, ok := in.(*ssa.Call)
+			if !ok {
+				return
+			}
+			g := call.Call.StaticCallee()
+			if g == nil || fnPkgPath(g) != "reflect" || g.Signature.Recv() != nil {
+				return
+			}
+			for ai, a := range call.Call.Args {
+				if ai >= g.Signature.Params().Len() {
+					break
+				}
+				if nm, ok := g.Signature.Params().At(ai).Type().(*types.Named); !ok || nm.Obj().Name() != "Type" {
+					continue
+				}
+				ld, ok := a.(*ssa.UnOp)
+				if !ok || ld.Op != token.MUL {
+					continue
+				}
+				fa, ok := ld.X.(*ssa.FieldAddr)
+				if !ok {
+					continue
+				}
+				n++
+				// a test of the same field against nil dominates the call, on the non-nil side
+				fld := faField(fa)
+				guarded := guardedBy(b, func(cond ssa.Value) (bool, bool) {
+					bo, ok := cond.(*ssa.BinOp)
+					if !ok || (bo.Op != token.EQL && bo.Op != token.NEQ) || !isNilConst(bo.Y) {
+						return false, false
+					}
+					if _, same := loadOfField(bo.X, fld); !same {
+						return false, false
+					}
+					return true, bo.Op == token.NEQ
+				})
+				construct := "reflect." + g.Name() + " of field " + fieldName(fa)
+				if guarded {
+					c.ok("C01-NILTYPE", fnName(f), construct, call.Pos(), "the field is tested against nil before it is handed to reflect")
+					continue
+				}
+				o := c.bad("C01-NILTYPE", fnName(f), construct, call.Pos(),
+					"a reflect.Type read from a struct field is handed to reflect."+g.Name()+", which dereferences it, with no nil test, in code reachable outside the recover barrier: for a registered type that has no Go sample value the field is nil and the call is a nil-pointer panic out of the library")
+				if o.Status == StViolation {
+					o.Path = br.unprot.pathTo(c, f)
+				}
+			}
+		})
+	}
+	c.note("reflect_type_arguments_examined", n)
+}
